@@ -33,6 +33,8 @@ DECIDED = [
     "C01.8 shared_result_worker_ids adds a worker only for PASS results",
     "C01.9 provenance of get_location* values in pull_locations",
     "C01.10 reversal guards (T.G5)",
+    "C01.11 premise: an attached setup node is taken as an object's producer only for that very object (else the other object's producer chain is never parsed)",
+    "C01.12 premise: state scans and syncs of a worker go through that worker's own session (cache keyed by host and port)",
 ]
 NOT_DECIDED = [
     "truthfulness of the state scan and of the pools' contents",
@@ -53,9 +55,12 @@ def scan_states_rule(ctx: Ctx, rule: str) -> None:
             continue
         n += 1
         final = view.canon(view.path.exit_node.value, len(view.steps))
-        if not (isinstance(final, ast.Constant) and isinstance(final.value, bool)):
-            raise AnalysisError(f"{fref}: result of a path is not a tracked constant: {ast.unparse(final)}")
         through_handler = any(s.kind == "except" for s in view.steps)
+        if not (isinstance(final, ast.Constant) and isinstance(final.value, bool)):
+            if through_handler:
+                problems.append((f"after a scan error the result is computed ({ast.unparse(final)}) instead of: failed state assertion -> run, any other error -> RuntimeError", view))
+                continue
+            raise AnalysisError(f"{fref}: result of a path is not a tracked constant: {ast.unparse(final)}")
         runs = [i for i, c in view.calls(is_call_named("run_subcontrol"))]
         if final.value is False:
             prem = view.premise(len(view.steps), 0)
@@ -272,6 +277,11 @@ def run(ctx: Ctx) -> None:
     ctx.call(pass_only_rule, "8")
     ctx.call(pull_locations_rule, "9")
     ctx.call(T.t_g5, "10/T.G5")
+    from . import graphrules as GR
+    from .c08 import session_identity
+
+    ctx.call(GR.dependency_lookup, "11")
+    ctx.call(session_identity, "12")
 
 
 G = "cartgraph/graph.py"
@@ -287,6 +297,8 @@ MUTANTS = [
      "            if node.is_flat() or worker.id not in node.params[\"name\"]:\n                continue\n            if worker.id not in self._dropped_setup_nodes.get_workers(node):", "5"),
     ("scan-error-means-present", NODE, "                else:\n                    raise RuntimeError(\n                        \"Could not complete state scan due to control file error\"\n                    )",
      "                else:\n                    should_run = False", "7"),
+    ("scan-error-computed", NODE, "                if \"AssertionError\" in error.output:\n                    should_run = True\n                else:\n                    raise RuntimeError(\n                        \"Could not complete state scan due to control file error\"\n                    )",
+     "                should_run = \"AssertionError\" in error.output", "7"),
     ("drop-before-traverse", G, "                    await self.traverse_node(next, worker, params)\n                    if not next.should_run(worker):\n                        previous.drop_parent(next, worker)",
      "                    if not next.should_run(worker):\n                        previous.drop_parent(next, worker)\n                    await self.traverse_node(next, worker, params)", "2/T.G4"),
     ("scan-when-finished", NODE, "should_run_from_scan = self.scan_states() if should_scan else False", "should_run_from_scan = self.scan_states()", "6"),
